@@ -7,7 +7,8 @@ Definition is_counted (p : pc) : bool := match p with WWait _ | WWoken _ _ => tr
 Definition is_wwoken (p : pc) : bool := match p with WWoken _ _ => true | _ => false end.
 Definition is_rwait (p : pc) : bool := match p with RWait => true | _ => false end.
 Definition is_awwait (p : pc) : bool := match p with AwWait => true | _ => false end.
-Definition is_ghold (p : pc) : bool := match p with GHold => true | _ => false end.
+Definition is_ghold (p : pc) : bool := match p with GHold | QMid => true | _ => false end.   (* holds the group lock *)
+Definition is_gh (p : pc) : bool := match p with GHold => true | _ => false end.     (* inside ThreadGroup::shut_down *)
 Definition is_qmid (p : pc) : bool := match p with QMid => true | _ => false end.
 Definition is_awret (p : pc) : bool := match p with AwRet => true | _ => false end.
 Definition occ (l : list nat) (t : nat) : nat := count_occ Nat.eq_dec l t.
@@ -24,9 +25,9 @@ Record Inv (s : state) : Prop := mkInv {
   i_started : forall t, occ (started s) t = sumf (occ_run t) (thr s) + occ (done s) t;
   i_glock : cnt is_ghold (thr s) = b2n (glock s);
   i_psd_w : psd s = true -> cnt on_task (thr s) = 0 /\ cnt on_avail (thr s) = 0;
-  i_gsd_w : gsd s = true -> glock s = false ->
+  i_gsd_w : gsd s = true -> cnt is_gh (thr s) = 0 ->
             cnt is_rwait (thr s) = 0 /\ (tcount s = 0 -> cnt is_awwait (thr s) = 0);
-  i_reg : reg s = false -> psd s = true \/ 1 <= cnt is_qmid (thr s) \/ glock s = true;
+  i_reg : reg s = false -> psd s = true \/ glock s = true;
   i_gsd_reg : gsd s = true -> reg s = false;
   i_awret : 1 <= cnt is_awret (thr s) -> gsd s = true /\ tcount s = 0
 }.
